@@ -3,12 +3,12 @@ H = 'C02_unbounded.cpp'
 CUTS = [r'_alloc_alignedE', r'_free_alignedE']
 def bmc(init, maxc, steps, tier, paths=False, shrinkw=False, final=False, timeout=None, sc=False, nodes=3, pre=0):
     nm = '%s_i%d_m%d_p%d_s%d%s%s' % ('sc' if sc else 'ra', init, maxc, pre, steps, '_shr' if shrinkw else '', '_dtor' if final else '')
-    return Q(nm, H, 'h_unbounded_bmc', defines=['INIT=%d' % init, 'MAXC=%d' % maxc, 'NSTEPS=%d' % steps, 'MAXNODE=%d' % nodes, 'PRE=%d' % pre] + (['FINAL_DELETE'] if final else []),
+    return Q(nm, H, 'h_unbounded_bmc', defines=['INIT=%d' % init, 'MAXC=%d' % maxc, 'NSTEPS=%d' % steps, 'MAXNODE=%d' % nodes, 'PRE=%d' % pre] + (['FINAL_DELETE'] if final else []) + (['SCMODE'] if sc else []),
              cdefs=(['WITNESS_SHRINK'] if shrinkw else []) + ['VLL_QBLOCK=%d' % (2 * maxc), 'VLL_QPOOL=%d' % nodes, 'VLL_ALIGNED_NEW_HOOK'], cxx=['-fno-inline'], cuts=CUTS, models=['m_queue_alloc.c', 'm_throw.c'],
              unwind=max(steps + pre + 7, 2 * maxc + 2), paths=paths, tier=tier, timeout=timeout,
              vra='sc' if sc else {'MAXLOC': 3 * nodes, 'MAXMSG': steps + pre + 3, 'MAXTHR': 2, 'MAXOBJ': steps + pre + 2 + nodes},
              bounds='initial capacity %d, maximum %d, ' % (init, maxc) + ('%d producer step(s) first, then ' % pre if pre else '') + ('at most %d nodes, ' % nodes) + ('sequentially consistent latest-value atomics, ' if sc else 'release/acquire shim, ') + '%d scheduler steps (producer:' % steps + ' write of symbolic size 1..max+1 with growth as needed, or shrink to any target; consumer: read with node switch/free, optional commit_read)',
-             what='record stream across node switches, old node drained before the new one, retired node never accessed (CBMC deallocated-object checks + dead-atomic check + race detector ordering the delete after the producer\'s last access), capacity <= max, oversize => error, growth beyond max => nullptr without allocation, shrink semantics, ReadResult fields')
+             what='record stream across node switches, old node drained before the new one, retired node never accessed (CBMC deallocated-object checks + dead-atomic check + race detector ordering the delete after the producer\'s last access), capacity <= max, oversize => error, growth beyond max => nullptr without allocation, shrink semantics, ReadResult fields; (SC queries) empty() is never true while a committed record is unread, in whichever node it lives, and false only then or while a node switch is pending')
 QUERIES = [bmc(2, 8, 5, 'quick', sc=True), bmc(2, 4, 2, 'quick', nodes=2, pre=2, timeout=290), bmc(2, 8, 2, 'quick', sc=True, shrinkw=True, final=True, pre=2), bmc(2, 6, 4, 'quick', sc=True), bmc(2, 12, 5, 'thorough', sc=True, timeout=1700),
            bmc(2, 4, 3, 'thorough', nodes=2, pre=1, timeout=1700), bmc(2, 8, 7, 'thorough', sc=True, timeout=1700), bmc(4, 16, 6, 'thorough', sc=True, timeout=1700), bmc(2, 8, 4, 'thorough', nodes=3, pre=1, timeout=1700)]
 BOUNDS = 'initial capacity 2/4, maximum 4/6/8/12/16 (power-of-two and not), 4-7 steps'
